@@ -196,9 +196,10 @@ class DataContainer(_BaseDataContainer):
             for attr in self._attr.values():
                 attr._expand(len(other))
         elif isinstance(other,DataContainer):
+            n_other = len(other) # taken first: `other` may be `self`
             self._data += other._data
             for attr in self._attr.values():
-                attr._expand(other.n_elem)
+                attr._expand(n_other)
         else:
             raise Exception("Could not append data container of type {} onto an attribute".format(type(other)))
         return self
@@ -298,10 +299,11 @@ class CornerDataContainer(_BaseDataContainer):
             for attr in self._attr.values():
                 attr._expand(len(other))
         elif isinstance(other, CornerDataContainer):
+            n_other = len(other) # taken first: `other` may be `self`
             self._elem += other._elem
             self._adj += other._adj
             for attr in self._attr.values():
-                attr._expand(other.n_elem)
+                attr._expand(n_other)
         else:
             raise Exception("Could not append data container of type {} onto an attribute".format(type(other)))
         return self
